@@ -37,6 +37,9 @@ type LoopSpec struct {
 	caseTerms  [][]string // evaluated at the start of the body of the current execution
 }
 
+// IdxAssert: see the idxassert directive.
+type IdxAssert struct{ Base, Lo, Hi, Prop string }
+
 type Contract struct {
 	Name     string // unit name as written
 	Pkg      string
@@ -62,6 +65,7 @@ type Contract struct {
 	// resolved
 	Decl    *ast.FuncDecl
 	Clause  *ast.CaseClause // for clause units
+	IdxAsserts []*IdxAssert // `idxassert BASE LO HI`
 	MapLoop bool            // map-range unit (maprange.go)
 	Frame   string          // frame unit T.f (frame.go)
 	ResVars []string
@@ -366,6 +370,15 @@ func parseContractsData(data []byte, file string, pkgPath string) ([]*Contract, 
 				return nil, fmt.Errorf("%s:%d: %v", file, ln+1, err)
 			}
 			parsedFolds[pkgPath] = append(parsedFolds[pkgPath], fd)
+		case "idxassert":
+			// `idxassert[Cxx] BASE LO HI`: every index expression BASE[i] of the unit has LO <= i < HI (integer constants).
+			// Used where the bound that matters is that of the operand encoding (an index decoded from an 8-bit operand
+			// is 0..255) rather than the length of a table whose well-formedness is not under contract.
+			f := strings.Fields(rest)
+			if len(f) != 3 {
+				return nil, fmt.Errorf("%s:%d: idxassert BASE LO HI", file, ln+1)
+			}
+			cur.IdxAsserts = append(cur.IdxAsserts, &IdxAssert{Base: f[0], Lo: f[1], Hi: f[2], Prop: prop})
 		case "litassert", "callassert":
 			f := strings.SplitN(rest, " ", 3)
 			if len(f) != 3 {
